@@ -210,7 +210,7 @@ def rule_T(ctx):
     fn['TrackCollection'] = lambda *a_: Coll()
     bad_t = bad_e = None
     total = 0
-    for n in range(1, 6):
+    for n in range(1, 10 if ctx.tier == 'thorough' else 6):
         for marks in itertools.product((0, 1), repeat=n):
             t = TrackS(n, {'m': list(marks)})
             try:
